@@ -28,6 +28,7 @@ fn main() {
         "hostile" => hostile::run(&args),
         "sweeps" => sweeps::run(&args),
         "cthash" => cthash(&args),
+        "t0probe" => t0probe(&args),
         "ctskel" => ctskel(&args),
         "api" => apitrace::run(&args),
         other => { eprintln!("unknown subcommand {}", other); std::process::exit(2); }
@@ -99,4 +100,41 @@ fn ctskel(a: &Args) {
     }
     let (seed, n) = (a.u("seed", 1), a.u("n", 8) as usize);
     one::<api::Set44>(seed, n); one::<api::Set65>(seed, n); one::<api::Set87>(seed, n);
+}
+
+/// experiment: how many rejection-loop attempts do accepted private keys with adversarial t0 sections need?
+fn t0probe(a: &Args) {
+    use api::MlDsa;
+    use fips204::verif_hooks as vh;
+    fn one<S: MlDsa>(nmsg: usize) {
+        let mut p = util::Prng::new(7, S::SET as u64);
+        let (_pk, sk) = S::keygen_seed(&p.arr32());
+        let base = S::sk_bytes(&sk);
+        let c = vh::bit_length(2 * S::ETA);
+        let t0_start = 128 + (S::L + S::K) * 256 * c / 8;
+        let mk = |f: &dyn Fn(usize) -> i32| -> Vec<u8> {
+            let mut b = base.clone();
+            for x in b[t0_start..].iter_mut() { *x = 0; }
+            for i in 0..S::K * 256 { let v = (4096 - f(i)) as u32; let bit = t0_start * 8 + i * 13; for t in 0..13 { if (v >> t) & 1 == 1 { b[(bit + t) / 8] |= 1 << ((bit + t) % 8); } } }
+            b
+        };
+        let pats: Vec<(&str, Vec<u8>)> = vec![
+            ("all +4096", mk(&|_| 4096)), ("all -4095", mk(&|_| -4095)), ("alternating", mk(&|i| if i % 2 == 0 { 4096 } else { -4095 })),
+            ("blocks of 64", mk(&|i| if (i / 64) % 2 == 0 { 4096 } else { -4095 })), ("first half +, second half -", mk(&|i| if i % 256 < 128 { 4096 } else { -4095 })),
+        ];
+        for (name, b) in pats {
+            let k = S::sk_from(&b).expect("accepted");
+            let mut mx = 0usize;
+            for i in 0..nmsg {
+                vh::trace_start();
+                let r = util::guarded(|| S::internal_sign(&k, &[i as u8, (i >> 8) as u8], [0u8; 32]));
+                let att = vh::trace_take().iter().filter(|e| e.0 == "sign_attempt").count();
+                mx = mx.max(att);
+                if let Err((loc, msg)) = r { println!("set {} t0 {}: PANIC after {} attempts at {}: {}", S::SET, name, att, loc, msg); break; }
+            }
+            println!("set {} t0 pattern {:28} max attempts over {} messages: {}", S::SET, name, nmsg, mx);
+        }
+    }
+    let n = a.u("n", 20) as usize;
+    one::<api::Set44>(n); one::<api::Set65>(n); one::<api::Set87>(n);
 }
